@@ -43,8 +43,9 @@ pub struct Program {
     pub final_probe: bool,
 }
 
+/// the URI an editor would send for the note: percent-encoded by the url crate
 pub fn uri_str(key: &str) -> String {
-    format!("file://{}/{}.md", BASE, key)
+    lsp_types::Url::parse(&format!("file://{}/{}.md", BASE, key)).map(|u| u.to_string()).unwrap_or_else(|_| format!("file://{}/{}.md", BASE, key))
 }
 
 pub fn server_params(p: &Program) -> iwes::ServerParams {
@@ -669,6 +670,72 @@ pub fn check_oracles(program: &Program, tr: &Trace, reference: &BTreeMap<(usize,
             }
         }
     }
+    // ---- C11, independent of the reference: the unique version tokens. A formatting answer for note X must
+    // show the text of the latest edit of X sent before the request (or of a later one sent before the answer
+    // arrived). The reference runs the same code, so a defect that loses or misroutes an edit under *every*
+    // schedule is invisible to the window oracle above; this one sees it.
+    {
+        fn token_of(text: &str) -> Option<String> {
+            let i = text.rfind("ver v")?;
+            let digits: String = text[i + 5..].chars().take_while(|c| c.is_ascii_digit()).collect();
+            if digits.is_empty() {
+                None
+            } else {
+                Some(format!("ver v{}", digits))
+            }
+        }
+        fn edit_of(m: &Message) -> Option<(String, Option<String>)> {
+            if let Message::Notification(n) = m {
+                let uri = n.params.pointer("/textDocument/uri").and_then(|v| v.as_str())?.to_string();
+                let text = n.params.pointer("/contentChanges/0/text").or(n.params.get("text")).and_then(|v| v.as_str())?;
+                return Some((uri, token_of(text)));
+            }
+            None
+        }
+        for (i, s) in tr.sent.iter().enumerate() {
+            let r = match &s.msg {
+                Message::Request(r) if r.method == "textDocument/formatting" && (s.fault.is_empty() || s.fault.starts_with("probe-after")) => r,
+                _ => continue,
+            };
+            if tr.sent.iter().filter(|x| matches!(&x.msg, Message::Request(y) if y.id == r.id)).count() != 1 {
+                continue;
+            }
+            let uri = match r.params.pointer("/textDocument/uri").and_then(|v| v.as_str()) {
+                Some(u) => u.to_string(),
+                None => continue,
+            };
+            let resps = response_for(&tr.received, &r.id);
+            if tr.crashed && resps.is_empty() {
+                continue;
+            }
+            let pp = resps.first().map(|x| x.p).unwrap_or(n_total);
+            // edits of this note, in send order
+            let edits: Vec<(&Sent, Option<String>)> = tr.sent.iter().filter(|x| is_doc_notification(&x.msg)).filter_map(|x| edit_of(&x.msg).filter(|(u, _)| *u == uri).map(|(_, t)| (x, t))).collect();
+            let latest_before = match edits.iter().filter(|(x, _)| x.seq < s.seq).last() {
+                Some(e) => e,
+                None => continue,
+            };
+            let acceptable: Vec<&(&Sent, Option<String>)> = edits.iter().filter(|(x, _)| x.seq >= latest_before.0.seq && (x.seq < s.seq || x.p < pp)).collect();
+            if acceptable.iter().any(|(_, t)| t.is_none()) {
+                continue; // an edit without a token (e.g. a refactoring moved it to another note): cannot judge
+            }
+            let answer = resps.first().and_then(|x| if let Message::Response(Response { result: Some(Value::Array(a)), .. }) = &x.msg { a.first().and_then(|e| e.get("newText")).and_then(|t| t.as_str()).map(|t| t.to_string()) } else { None });
+            let ok = match &answer {
+                Some(text) => acceptable.iter().any(|(_, t)| text.contains(t.as_ref().unwrap().as_str())),
+                None => false,
+            };
+            if !ok {
+                let want: Vec<String> = acceptable.iter().map(|(_, t)| t.clone().unwrap()).collect();
+                v.push(Violation {
+                    property: "C11".into(),
+                    kind: "edit_not_visible".into(),
+                    signature: format!("edit_not_visible/{}", if s.step == usize::MAX { "at-quiescence" } else { "request-after-edit" }),
+                    detail: format!("formatting of {} (message #{}) was sent after the edit carrying '{}' but the answer shows {} (acceptable: {:?})", uri, i, want.first().cloned().unwrap_or_default(), answer.as_ref().map(|t| format!("a text with {:?}", token_of(t))).unwrap_or_else(|| "no text at all".into()), want),
+                });
+                break;
+            }
+        }
+    }
     // ---- C12: no response with an id the client never used
     let used: BTreeSet<String> = tr.sent.iter().filter_map(|s| if let Message::Request(r) = &s.msg { Some(r.id.to_string()) } else { None }).collect();
     for r in &tr.received {
@@ -777,11 +844,19 @@ pub fn generate(seed: u64, thorough: bool, faults: bool) -> GenOut {
     let enabled_faults: Vec<&str> = if faults { FAULTS.iter().filter(|_| swarm.chance(1, 3)).cloned().collect() } else { vec![] };
     let fault_pct = if enabled_faults.is_empty() { 0 } else { *swarm.pick(&[15u32, 30, 50]) };
 
-    let all_keys = gen::key_pool(n_notes + 2, with_dirs);
+    let key_flavour = if swarm.chance(1, 3) { 1 } else { 0 };
+    let big_doc_bytes = if swarm.chance(1, 25) { *swarm.pick(&[9_000usize, 70_000, 140_000]) } else { 0 };
+    let version_mode = swarm.below(3); // 0: constant 1, 1: increasing, 2: increasing with restarts after close/open
+    let all_keys = gen::rich_key_pool(n_notes + 2, with_dirs, key_flavour, &mut work);
     let lib_keys: Vec<String> = all_keys[..n_notes].to_vec();
     let mut targets = all_keys.clone();
     targets.push("zz".to_string());
+    if key_flavour != 0 {
+        targets.push("readme".to_string());
+    }
     let cfg = GenCfg { keys: lib_keys.clone(), targets, max_blocks: swarm.range(2, 6), max_depth: 2 };
+    let mut versions: BTreeMap<String, i64> = BTreeMap::new();
+    let mut big_used = false;
     let mut docs: BTreeMap<String, Doc> = BTreeMap::new();
     let mut texts: BTreeMap<String, String> = BTreeMap::new();
     for k in &lib_keys {
@@ -968,6 +1043,11 @@ pub fn generate(seed: u64, thorough: bool, faults: bool) -> GenOut {
                 // unique version token in a heading and a paragraph: every later answer is attributable
                 let d = docs.get_mut(&k).unwrap();
                 d.blocks.retain(|b| !matches!(b, gen::Block::Para(l) if l.len() == 1 && l[0].len() == 2 && matches!(&l[0][0], gen::Inline::Word(w) if w == "ver")));
+                if big_doc_bytes > 0 && !big_used {
+                    big_used = true;
+                    let extra = gen::big_paragraphs(big_doc_bytes, &mut work);
+                    d.blocks.extend(extra);
+                }
                 d.blocks.push(gen::Block::Para(vec![vec![gen::Inline::Word("ver".into()), gen::Inline::Word(vtok.clone())]]));
                 let t = gen::render(&k, d);
                 texts.insert(k.clone(), t.clone());
@@ -980,7 +1060,26 @@ pub fn generate(seed: u64, thorough: bool, faults: bool) -> GenOut {
                         steps.push(Step::Notify { method: "textDocument/didChange".into(), params: json!({"textDocument": {"uri": uri_str(&k), "version": 1}, "contentChanges": [{"text": t}]}), class });
                     }
                 } else {
-                    steps.push(Step::Notify { method: "textDocument/didChange".into(), params: json!({"textDocument": {"uri": uri_str(&k), "version": 1}, "contentChanges": [{"text": t}]}), class });
+                    let ver = match version_mode {
+                        0 => 1,
+                        1 => {
+                            let v = versions.entry(k.clone()).or_insert(0);
+                            *v += 1;
+                            *v
+                        }
+                        _ => {
+                            let v = versions.entry(k.clone()).or_insert(0);
+                            if *v >= 2 && work.chance(1, 4) {
+                                // the editor closed and re-opened the note: numbering legally restarts
+                                steps.push(Step::Notify { method: "textDocument/didClose".into(), params: json!({"textDocument": {"uri": uri_str(&k)}}), class: "did-close".into() });
+                                steps.push(Step::Notify { method: "textDocument/didOpen".into(), params: json!({"textDocument": {"uri": uri_str(&k), "languageId": "markdown", "version": 1, "text": texts[&k]}}), class: "did-open".into() });
+                                *v = 1;
+                            }
+                            *v += 1;
+                            *v
+                        }
+                    };
+                    steps.push(Step::Notify { method: "textDocument/didChange".into(), params: json!({"textDocument": {"uri": uri_str(&k), "version": ver}, "contentChanges": [{"text": t}]}), class });
                 }
             }
             2 => {
